@@ -185,6 +185,13 @@ impl World {
 	/// Restart `node` from a serialized manager and one serialized monitor per channel.
 	/// Peers are told the node disconnected. Returns Err(description) if deserialization fails.
 	pub fn restart(&mut self, node: usize, manager_bytes: &[u8], monitors: &[Vec<u8>], connected_peers: &[usize]) -> Result<(), String> {
+		self.restart_opts(node, manager_bytes, monitors, connected_peers, true)
+	}
+
+	/// Like `restart`; with `sync_chain` false the reloaded objects are not told anything about the chain: they
+	/// stay exactly where their images were written and the caller's chain client carries on from there (used
+	/// by the C11 engine, whose client owns every `Listen` / `Confirm` call of the observed node).
+	pub fn restart_opts(&mut self, node: usize, manager_bytes: &[u8], monitors: &[Vec<u8>], connected_peers: &[usize], sync_chain: bool) -> Result<(), String> {
 		// tell everyone we are gone
 		let my_id = self.node_id(node);
 		for j in 0..self.n {
@@ -223,7 +230,7 @@ impl World {
 		// Documented start-up procedure: every ChannelMonitor and the ChannelManager are brought to the chain
 		// tip separately before use. The node's block list survives the restart (it is the chain source).
 		let chain: Vec<(bitcoin::Block, u32)> = old.blocks.lock().unwrap().clone();
-		for m in mons.iter() {
+		for m in mons.iter().filter(|_| sync_chain) {
 			let from = m.current_best_block().height;
 			// A monitor fed through the Confirm interface can have been written between `best_block_updated`
 			// and the `transactions_confirmed` calls belonging to the same (or, when blocks are skipped, earlier)
@@ -269,7 +276,7 @@ impl World {
 			Err(e) => return Err(format!("ChannelManager::read failed: {:?}", e)),
 		};
 		let mgr: &'static SManager = unsafe { self.arena.leak_any(mgr) };
-		{
+		if sync_chain {
 			use lightning::chain::Listen;
 			let from = mgr.current_best_block().height;
 			for (blk, h) in chain.iter() {
